@@ -156,7 +156,7 @@ class RefExec:
         self.tape = tape
         self.stream = stream
         self.faults = faults or {}  # path -> kind
-        self.k = dict(null_pct=12, max_list=3, budget=160, decoy_pct=60, type_as_object_pct=0, long_list_pct=0)
+        self.k = dict(null_pct=12, max_list=3, budget=160, decoy_pct=60, type_as_object_pct=0, long_list_pct=0, mid_list_pct=0)
         if knobs:
             self.k.update(knobs)
         self.frags = doc.fragments()
@@ -399,6 +399,9 @@ class RefExec:
             elif k.get("long_list_pct") and inner[1][0] != "L" and self.s.is_leaf(named(inner[1])) and t.chance(k["long_list_pct"]):
                 n = 257 + t.draw(80)  # longer than any internal chunk / batch size
                 self.plan.probe("list_longer_than_256")
+            elif k.get("mid_list_pct") and inner[1][0] != "L" and len(path) <= 2 and t.chance(k["mid_list_pct"]):
+                n = 10 + t.draw(14)  # two-digit indices, many concurrent items
+                self.plan.probe("list_of_10_to_23_items")
             if n >= 2:
                 self.plan.probe("list_len>=2")
             if inner[1][0] == "L" or (inner[1][0] == "NN" and inner[1][1][0] == "L"):
@@ -697,6 +700,31 @@ def _strip(path):
     while path and isinstance(path[-1], int):
         path = path[:-1]
     return path
+
+
+def same_list_fault_pair(plan, t):
+    """Two fault sites under two different items of one list (failures racing inside one gather)."""
+    by_list = {}
+    for path, ty, what, is_res in plan.positions:
+        if what == "item":
+            by_list.setdefault(path[:-1], set()).add(path[-1])
+    lists = [(lp, sorted(ix)) for lp, ix in by_list.items() if len(ix) >= 2]
+    if not lists:
+        return None
+    lp, ix = lists[t.draw(len(lists))]
+    i = ix[t.draw(len(ix))]
+    j = ix[t.draw(len(ix))]
+    if i == j:
+        return None
+    sites = enumerate_fault_sites(plan)
+    out = {}
+    for item in (i, j):
+        under = [s for s in sites if len(s[0]) >= len(lp) + 1 and tuple(s[0][: len(lp) + 1]) == tuple(lp) + (item,)]
+        if not under:
+            return None
+        p, kind = under[t.draw(len(under))]
+        out[p] = kind
+    return out
 
 
 def enumerate_fault_sites(plan):
